@@ -86,7 +86,7 @@ type Handle = Box<dyn Droppable>;
 // ---------------------------------------------------------------------------------------
 // programs / actions
 
-pub const SHAPES: [&str; 16] = [
+pub const SHAPES: [&str; 18] = [
     "chain",
     "diamond",
     "bind_fresh",
@@ -103,6 +103,8 @@ pub const SHAPES: [&str; 16] = [
     "map_ref",
     "closure_holds_var",
     "shared_var",
+    "inner_invalidated",
+    "inner_pending_invalidation",
 ];
 
 #[derive(Clone, Copy, Debug, PartialEq, Eq)]
@@ -155,6 +157,8 @@ struct Cx {
     /// shape `shared_var`: a second remaining graph that hangs off a node of the shape; what it
     /// legitimately keeps alive is judged only after the harness has released it too
     shared: Option<Shared>,
+    /// the shape's construction stabilises whatever the variant says (the remaining observer is in use then)
+    forced_stabilise: bool,
 }
 
 struct Shared {
@@ -381,6 +385,62 @@ fn build_shape(shape: &str, cx: &mut Cx, st: &IncrState) -> bool {
             cx.handle("v", v);
             cx.handle("b", b);
             cx.handle("o", o);
+        }
+        // An observer (with a subscription) sits on a node that a bind closure built and that escaped; the bind's
+        // input then changes, so the observed node is *invalidated while its observer is alive*; only afterwards are
+        // the handles dropped (added after seed C12-b: an observer of an invalid node must still be unlinked).
+        // `inner_pending_invalidation`: the write that will invalidate the node is still pending when the drops start.
+        "inner_invalidated" | "inner_pending_invalidation" => {
+            let v = st.var(cx.val(1));
+            let (tb, ti, th) = (cx.tok("bind"), cx.tok("inner"), cx.tok("handler"));
+            let ws = st.weak();
+            let escaped: Rc<RefCell<Option<Incr<Tk>>>> = Rc::new(RefCell::new(None));
+            let inner_weaks: Rc<RefCell<Vec<WeakIncr<Tk>>>> = Rc::new(RefCell::new(vec![]));
+            let (iw, esc) = (inner_weaks.clone(), escaped.clone());
+            let first_done = Cell::new(false);
+            let b = v.bind(move |x| {
+                let _ = &tb;
+                let ti = ti.clone();
+                let k = ws.constant(x.with(x.v + 10));
+                let m = k.map(move |y| {
+                    let _ = &ti;
+                    y.with(y.v + 1)
+                });
+                iw.borrow_mut().push(k.weak());
+                iw.borrow_mut().push(m.weak());
+                // only the first generation's node escapes (the closure never keeps a handle afterwards)
+                if !first_done.replace(true) {
+                    *esc.borrow_mut() = Some(m.clone());
+                }
+                m
+            });
+            let o = b.observe();
+            cx.weak("v", &v.watch());
+            cx.weak("b", &b);
+            cx.weaks.push(("rhs-nodes".into(), Box::new(move || inner_weaks.borrow().iter().map(|w| w.strong_count()).sum())));
+            cx.forced_stabilise = true;
+            st.stabilise();
+            let m = escaped.borrow_mut().take().expect("bind closure ran");
+            let io = m.observe();
+            let _token = io.subscribe(move |_u: Update<&Tk>| {
+                let _ = &th;
+            });
+            drop(m);
+            st.stabilise();
+            v.set(cx.val(2));
+            if shape == "inner_invalidated" {
+                st.stabilise();
+            }
+            if cx.settle(st) {
+                v.set(cx.val(7));
+            }
+            cx.extra("io.clone", io.clone());
+            cx.extra("o.clone", o.clone());
+            cx.extra("b.clone", b.clone());
+            cx.handle("v", v);
+            cx.handle("b", b);
+            cx.handle("o", o);
+            cx.handle("io", io);
         }
         "bind_own_input" => {
             let v = st.var(cx.val(1));
@@ -925,6 +985,7 @@ impl World for DropsWorld {
             counters: vec![],
             weaks: vec![],
             shared: None,
+            forced_stabilise: false,
         };
         let shape = prog.shape.clone();
         let n_handles = prog.handles;
@@ -958,7 +1019,7 @@ impl World for DropsWorld {
             shared: None,
             rem_values,
             rem_closure,
-            rem_expected: if prog.pre == Pre::Fresh { None } else { Some(101) },
+            rem_expected: if prog.pre == Pre::Fresh && !cx.forced_stabilise { None } else { Some(101) },
             rem_n: 0,
             last_was_drop: false,
             built: false,
